@@ -575,14 +575,14 @@ impl Ctx {
 
 // Transform an expression under a given substitution; queue any needed instances
 fn mono_expr(ctx: &mut Ctx, e: &core::Expr, s: &Subst) -> MonoExpr {
-    match e.clone() {
+    match e {
         core::Expr::EVar { name, ty } => {
             let new_ty = subst_ty(&ty, s);
             // A generic function used as a value (`let f: (int32) -> int32 = id;`) is
             // instantiated at the function type the context gives it.
             if let Ty::TFunc { params, ret_ty } = &new_ty
                 && !has_tparam(&new_ty)
-                && let Some(callee) = ctx.orig_fns.get(&name).or_else(|| {
+                && let Some(callee) = ctx.orig_fns.get(name).or_else(|| {
                     // a method of a generic inherent impl is named by base type and method
                     parse_inherent_method_fn_name(&name).and_then(|(base_type, method_name)| {
                         ctx.inherent_method_index
@@ -609,11 +609,17 @@ fn mono_expr(ctx: &mut Ctx, e: &core::Expr, s: &Subst) -> MonoExpr {
                     };
                 }
             }
-            MonoExpr::EVar { name, ty: new_ty }
+            MonoExpr::EVar {
+                name: name.clone(),
+                ty: new_ty,
+            }
         }
         core::Expr::EPrim { value, ty } => {
             let ty = subst_ty(&ty, s);
-            MonoExpr::EPrim { value, ty }
+            MonoExpr::EPrim {
+                value: value.clone(),
+                ty,
+            }
         }
         core::Expr::EConstr {
             constructor,
@@ -653,7 +659,7 @@ fn mono_expr(ctx: &mut Ctx, e: &core::Expr, s: &Subst) -> MonoExpr {
             body,
             ty,
         } => MonoExpr::ELet {
-            name,
+            name: name.clone(),
             value: Box::new(mono_expr(ctx, &value, s)),
             body: Box::new(mono_expr(ctx, &body, s)),
             ty: subst_ty(&ty, s),
@@ -672,7 +678,9 @@ fn mono_expr(ctx: &mut Ctx, e: &core::Expr, s: &Subst) -> MonoExpr {
                     body: mono_expr(ctx, &arm.body, s),
                 })
                 .collect(),
-            default: default.map(|d| Box::new(mono_expr(ctx, &d, s))),
+            default: default
+                .as_ref()
+                .map(|d| Box::new(mono_expr(ctx, d, s))),
             ty: subst_ty(&ty, s),
         },
         core::Expr::EIf {
@@ -707,17 +715,17 @@ fn mono_expr(ctx: &mut Ctx, e: &core::Expr, s: &Subst) -> MonoExpr {
             MonoExpr::EConstrGet {
                 expr: Box::new(new_expr),
                 constructor: new_constructor,
-                field_index,
+                field_index: *field_index,
                 ty: subst_ty(&ty, s),
             }
         }
         core::Expr::EUnary { op, expr, ty } => MonoExpr::EUnary {
-            op,
+            op: *op,
             expr: Box::new(mono_expr(ctx, &expr, s)),
             ty: subst_ty(&ty, s),
         },
         core::Expr::EBinary { op, lhs, rhs, ty } => MonoExpr::EBinary {
-            op,
+            op: *op,
             lhs: Box::new(mono_expr(ctx, &lhs, s)),
             rhs: Box::new(mono_expr(ctx, &rhs, s)),
             ty: subst_ty(&ty, s),
@@ -813,7 +821,7 @@ fn mono_expr(ctx: &mut Ctx, e: &core::Expr, s: &Subst) -> MonoExpr {
             expr,
             ty,
         } => MonoExpr::EToDyn {
-            trait_name,
+            trait_name: trait_name.clone(),
             for_ty: subst_ty(&for_ty, s),
             expr: Box::new(mono_expr(ctx, &expr, s)),
             ty: subst_ty(&ty, s),
@@ -825,8 +833,8 @@ fn mono_expr(ctx: &mut Ctx, e: &core::Expr, s: &Subst) -> MonoExpr {
             args,
             ty,
         } => MonoExpr::EDynCall {
-            trait_name,
-            method_name,
+            trait_name: trait_name.clone(),
+            method_name: method_name.clone(),
             receiver: Box::new(mono_expr(ctx, &receiver, s)),
             args: args.iter().map(|a| mono_expr(ctx, a, s)).collect(),
             ty: subst_ty(&ty, s),
@@ -865,7 +873,7 @@ fn mono_expr(ctx: &mut Ctx, e: &core::Expr, s: &Subst) -> MonoExpr {
         }
         core::Expr::EProj { tuple, index, ty } => MonoExpr::EProj {
             tuple: Box::new(mono_expr(ctx, &tuple, s)),
-            index,
+            index: *index,
             ty: subst_ty(&ty, s),
         },
     }
